@@ -6,6 +6,9 @@ open Zarrs Zarrs.Proto
 structure St where
   base : DriverC01.St := {}
   prot : String := "none"
+  /-- sharded case: the inner chunks carry a checksum / the index carries a checksum -/
+  isum : Bool := false
+  icrc : Bool := false
 
 def setField (toks : List String) (k v : String) : List String :=
   toks.map (fun t => if t.startsWith (k ++ "=") then k ++ "=" ++ v else t)
@@ -20,11 +23,19 @@ def handle (st : St) (l : Line) : Option (St × List String × Option String) :=
   let v1 ← l.verbs[1]?
   if v1 == "cfg" then
     let (b, acc, n) ← DriverC01.handle st.base l
-    pure ({ base := b, prot := (l.get "prot").getD "none" }, acc, n)
+    pure ({ base := b, prot := (l.get "prot").getD "none", isum := (l.get "isum") == some "1", icrc := (l.get "icrc") == some "1" }, acc, n)
   else
     let verb ← l.verbs[2]?
     -- lines after an abort of the child process were not executed
     if l.outcome == "skip" then pure (st, ["skip"], none) else
+    if verb == "novalidate" then
+      -- reads with validation switched off after altering only checksum bytes: nothing may change
+      let toks := l.outcome.splitOn " "
+      if toks.head? != some "nv" then
+        if l.outcome == "absent" then pure (st, [l.outcome], none)
+        else pure (st, ["nv … (the pristine value must be readable and no read may abort the process)"], none)
+      else pure (st, [" ".intercalate (setField (setField toks "bad" "0") "first" "-")], none)
+    else
     if !(["corrupt_all", "multi", "truncate_all", "extend", "setindex"].contains verb) then
       let (b, acc, n) ← DriverC01.handle st.base l
       pure ({ st with base := b }, acc, n)
@@ -39,10 +50,17 @@ def handle (st : St) (l : Line) : Option (St × List String × Option String) :=
         let t := setField toks "panics" "0"
         let t := if st.prot == "outer" || st.prot == "some" then setField t "full_diff" "0" else t
         let t := if st.prot == "outer" && verb == "corrupt_all" then setField t "full_same" "0" else t
+        -- a shard whose inner chunks carry a checksum: one altered byte outside the index is inside a protected inner
+        -- chunk (zarrs writes no gaps), so every whole-value read must fail; likewise inside a checksummed index
+        let t := if verb == "corrupt_all" && st.isum then setField t "data_full_noterr" "0" else t
+        let t := if verb == "corrupt_all" && st.icrc then setField t "index_full_noterr" "0" else t
         let t := if verb == "truncate_all" && (getField toks "short_noterr").isSome then setField t "short_noterr" "0" else t
         let t := if verb == "setindex" then
-            match (l.nat "off"), (l.nat "size"), (getField toks "len").bind (·.toNat?) with
-            | some off, some size, some len => if entryOutOfBounds off size len then setField t "full_noterr" "0" else t
+            match (getField toks "eoff").bind (·.toNat?), (getField toks "esize").bind (·.toNat?), (getField toks "len").bind (·.toNat?) with
+            | some off, some size, some len =>
+              -- an entry referring outside the stored value: every whole-value read AND every partial read confined to
+              -- that inner chunk must be an error or return what it returned before ("error or unchanged data")
+              if entryOutOfBounds off size len then setField (setField (setField t "full_noterr" "0") "touch_bad" "0") "touch_first" "-" else t
             | _, _, _ => t
           else t
         -- `first=` names the first offending read; it is informational
